@@ -392,7 +392,10 @@ func p11ParseListing(out string) []p11Sym {
 				name = name[i+1:]
 			}
 			size, _ := strconv.Atoi(m[3])
-			as, _ := strconv.ParseInt(m[4], 16, 64)
+			as, err := strconv.ParseInt(m[4], 16, 64)
+			if err != nil || as > 1<<31 {
+				as = -1 // ArgsSizeUnknown: the TEXT line has no "-args" part
+			}
 			syms = append(syms, p11Sym{name: name, flags: m[2], size: size, argsize: int(as)})
 			intext = true
 			continue
@@ -493,6 +496,12 @@ func p11RunC11Asm(args []string) error {
 			continue
 		}
 		st["compiled"]++
+		// PruneSelfMoves invalidates the CFG structures; recompute the IR's label binding
+		for _, fn := range file.Functions() {
+			if err := pass.LabelTarget(fn); err != nil {
+				st["labeltarget_error"]++
+			}
+		}
 		cfg := printer.Config{Name: "avo", Pkg: "p"}
 		text, ok := p11EmitPrint(o, cfg, file, st)
 		if !ok {
